@@ -167,6 +167,9 @@ type opInput struct {
 	Src     string
 	Version int
 	Probe   string
+	// AsUpdate: the provider reports the version as an update although nothing of this source is loaded (e.g. the
+	// Kubernetes provider after the creation of the object was refused)
+	AsUpdate bool
 }
 
 type opOutput struct {
@@ -222,7 +225,8 @@ func genProgram(t *rapid.T) program {
 			if rapid.IntRange(0, 3).Draw(t, src+".del") == 0 {
 				p.Updaters[src] = append(p.Updaters[src], opInput{Kind: "del", Src: src})
 			} else {
-				p.Updaters[src] = append(p.Updaters[src], opInput{Kind: "set", Src: src, Version: rapid.IntRange(0, 2).Draw(t, src+".version")})
+				p.Updaters[src] = append(p.Updaters[src], opInput{Kind: "set", Src: src, Version: rapid.IntRange(0, 2).Draw(t, src+".version"),
+					AsUpdate: rapid.IntRange(0, 3).Draw(t, src+".reportedAsUpdate") == 0})
 			}
 		}
 	}
@@ -276,7 +280,7 @@ func threads(w *vkit.World, p program, rec *recorder) []func() {
 				default:
 					cfgs := toConfigs(versions[op.Src][op.Version])
 					out := rec.record(c, op, func() opOutput {
-						if exists {
+						if exists || op.AsUpdate {
 							return opOutput{OK: w.Update(op.Src, cfgs...) == nil}
 						}
 
@@ -473,7 +477,7 @@ func TestParallelHistoriesAreLinearizable(t *testing.T) {
 				if next(4) == 0 {
 					p.Updaters[src] = append(p.Updaters[src], opInput{Kind: "del", Src: src})
 				} else {
-					p.Updaters[src] = append(p.Updaters[src], opInput{Kind: "set", Src: src, Version: next(3)})
+					p.Updaters[src] = append(p.Updaters[src], opInput{Kind: "set", Src: src, Version: next(3), AsUpdate: next(4) == 0})
 				}
 			}
 		}
